@@ -374,6 +374,8 @@ func (r *yieldRewriter) rewriteIfStmt(
 		return block
 	}
 
+	r.assert(r.mustNoYield(stmt.Init), stmt, "yield not supported in if-init")
+
 	switch alt := stmt.Else.(type) {
 	case nil:
 		body := r.rewriteBlockStmt(stmt.Body, kindIf)
